@@ -939,7 +939,8 @@ def delete_unreachable_code(source: str) -> str:
             continue
 
         if isinstance(node, ast.While) and not test_value:
-            yield node, None, transaction
+            if not node.orelse:  # The else clause of a loop that runs zero times does run
+                yield node, None, transaction
             continue
 
         if isinstance(node, ast.If):
@@ -1939,8 +1940,8 @@ def remove_dead_ifs(source: str) -> str:
         except ValueError:
             continue
 
-        if isinstance(node, ast.While) and not value:
-            yield node, None
+        if isinstance(node, ast.While) and not value and not node.orelse:
+            yield node, None  # An else clause would still run
 
         if isinstance(node, ast.IfExp):
             yield node, node.body if value else node.orelse
